@@ -10,6 +10,7 @@ import (
 	"fmt"
 	"net"
 	"os"
+	"runtime"
 	"runtime/debug"
 	"testing"
 	"time"
@@ -94,7 +95,23 @@ func TestVerifC05ExperimentDoubleEndStream(t *testing.T) {
 	select {
 	case o := <-outcome:
 		fmt.Println("EXPERIMENT OUTCOME:", o)
-	case <-time.After(3 * time.Second):
-		fmt.Println("EXPERIMENT OUTCOME: no panic within 3s (server still running)")
+	case <-time.After(2 * time.Second):
+		// HandleStreams' own deferred function waits for loopy to exit before a
+		// panic can propagate; loopy exits once the connection is closed.
+		buf := make([]byte, 1<<20)
+		buf = buf[:runtime.Stack(buf, true)]
+		for _, g := range bytes.Split(buf, []byte("\n\n")) {
+			if bytes.Contains(g, []byte("HandleStreams")) && bytes.Contains(g, []byte("http2Server")) {
+				fmt.Printf("--- server reader goroutine:\n%s\n---\n", g)
+			}
+		}
+		fmt.Println("no outcome within 2s; closing the client connection")
+		conn.Close()
+		select {
+		case o := <-outcome:
+			fmt.Println("EXPERIMENT OUTCOME (after closing the connection):", o)
+		case <-time.After(3 * time.Second):
+			fmt.Println("EXPERIMENT OUTCOME: none")
+		}
 	}
 }
